@@ -51,7 +51,8 @@ CLAIMED = {
             'Static, all-paths typestate of the proof-chain protocol (beginChain / addResolutionStep / endChain) through every function of the four SAT-engine '
             'classes with interprocedural summaries under "proof logging on" (release builds have no runtime check: the asserts are compiled out); every clause '
             'allocated in the engines reaches a proof registration on every logging path; premise reference counting agrees between the chain-building methods; '
-            'a finished derivation cannot be silently dropped for an existing key; clause kinds classified exhaustively. Decides these clauses (necessary for '
+            'a finished derivation cannot be silently dropped for an existing key; clause kinds classified exhaustively; a stored clause loses literals only under use_simplification, '
+            'which is switched off when proofs are logged. Decides these clauses (necessary for '
             'closed, current proofs), not that each step is a correct resolution.',
             'static analysis: interprocedural typestate + MUST-CALL walk over the structured mini-AST (LibTooling facts)', ''),
     'C28': ('other',
@@ -143,7 +144,7 @@ CLAIMED = {
             'simple-symbol alphabet, leading digit, reserved word) - truth table over its predicate calls - and the alphabet it accepts unquoted is a subset of the standard\'s; '
             '(2) whole-program string provenance: text read from a raw-name source (symbol names, sort-symbol names, assertion names) reaches std::cout, a file stream or the '
             'non-error response printer - directly, through returned strings or through caller-supplied streams - only through protectName; (3) functions echoing parser text '
-            'to std::cout distinguish quoted-symbol tokens; (4) Logic::dumpWithLets prints a node only after every child it names by definition has one. Number/abstract-value formats, the `as` disambiguation and read-back equality itself are value-level and not decided.',
+            'to std::cout distinguish quoted-symbol tokens; (4) Logic::dumpWithLets prints a node only after every child it names by definition has one. Number/abstract-value formats, the `as` disambiguation and read-back equality itself are value-level and not decided. Numeric constants are printed by splitting FastRational text at \'/\' into (/ n d); the number\'s own printers never reach the term printer.',
             'static analysis: truth-table interpretation of the quoting predicate; interprocedural flow-insensitive string-provenance (taint) analysis with function summaries over the mini-AST; path walk of the let-dump child scan', ''),
     'C07': ('other',
             'Static, protocol clauses of the deletion-based minimisation only (irreducibility itself is a statement about satisfiability of subsets and is not decided): on every '
